@@ -529,6 +529,16 @@ class CFG(object):
             pass
         return canon.ctext(e)
 
+    def same(self, expr, nid, text):
+        """Is `expr` (evaluated at node nid) the expression `text` (written
+        with the function's local names)?  Both are compared with
+        single-definition locals expanded, so neither introducing nor removing
+        a temporary on either side matters."""
+        if expr is None:
+            return False
+        want = ast.parse(text, mode="eval").body
+        return self.itext(expr, nid) == self.itext(want, nid)
+
     def iexprs(self):
         """{itext: [node ids]} for every sub-expression evaluated by the
         function (used for 'the function computes X somewhere' obligations)."""
